@@ -192,7 +192,16 @@ def mk_eval_cases(g, n, prefix, funcs=0.0, acc=0.0, jnum=0.15, opaque=0.0, filte
     for i in range(n):
         jn = g.r.random() < jnum
         k = g.r.random()
-        if k < families * 0.75:
+        if k < families * 0.15:
+            doc, steps = gens.allwild_family(g)
+            cases.append(Case('%s%d' % (prefix, i), gens.render_path(steps), [doc], [], [], acc=(g.r.random() < acc),
+                              meta={'nsteps': len(steps), 'family': 'all-wildcard'}))
+            continue
+        if k < families * 0.25 and jn:
+            doc, path = gens.jnum_order_family(g)
+            cases.append(Case('%s%d' % (prefix, i), path, [doc], [], [], acc=(g.r.random() < acc), meta={'nsteps': 2, 'family': 'jnum-order'}))
+            continue
+        if k < families * 0.8:
             kinds = None
             if opaque and g.r.random() < 0.5:
                 kinds = sorted(kk for kk, (_, _, se) in core.KINDS.items() if se)
